@@ -348,9 +348,9 @@ def check_c15(out: Outcome):
 
 def check_c19(out: Outcome):
     allp = corpus.all_programs(out.tier, out.seed)
-    progs = [p for p in allp if "C19" in p.props]
+    progs = [p for p in allp if "C19" in p.props or "C19n" in p.props]
     # deductive part: Debug::fmt through the real core::fmt writes exactly the required text, for ALL raw values ({:?})
-    kprogs = [p for p in progs if out.tier == "thorough" or p.pid in QUICK_DEBUG_KANI]
+    kprogs = [p for p in progs if "C19" in p.props and (out.tier == "thorough" or p.pid in QUICK_DEBUG_KANI)]
     run_x(out, kprogs, "C19", history=False, timeout_s=1500)
     out.bounded.append("C19 {:?}: Kani proof through the real core::fmt, loops unwound to the longest possible text + 3 with unwinding assertions (complete when they pass); "
                        "structs: " + ", ".join(p.pid for p in kprogs))
@@ -370,7 +370,7 @@ def check_c19(out: Outcome):
                           "extra": {"native_program": one, "reproduced_by_compilation": True}})
     out.extra["debug_texts_compared_natively"] = sum(n for n, _ in checked.values())
     out.bounded.append("C19 {:#?}: NOT proved (CBMC blows up in core::fmt's PadAdapter); stand-in = native execution for every raw value of bases <= 16 bits, "
-                       "2000 seeded raw values otherwise: " + ", ".join(f"{k}: {v[0]} texts{' (exhaustive)' if v[1] else ''}" for k, v in checked.items()))
+                       "2000 seeded raw values plus boundary patterns (single bits, masks around native widths, each field at its extremes) otherwise: " + ", ".join(f"{k}: {v[0]} texts{' (exhaustive)' if v[1] else ''}" for k, v in checked.items()))
     report_violations_acc(out, items)
     return finish(out, "proof", driver_kani_cmd() + "; stand-in: cargo run --release of the native enumeration",
                   explanation="{:?} proved by Kani through the real core::fmt for all raw values; {:#?} covered by exhaustive native execution (stand-in)")
